@@ -51,14 +51,77 @@ theorem listGet_ok {α : Type} (l : List α) (i : Int) (x : α) (h0 : 0 ≤ i) (
   simp [this, h]
 
 theorem atoms_dict_ok (sorted : List Attrs) :
-    listComp (pyIter (range (pyLen sorted))) (fun i => do let x ← (getItem sorted i : M Attrs); pure (some (i, x))) =
+    listComp (range (pyLen sorted)) (fun i => do let x ← (getItem sorted i : M Attrs); pure (some (i, x))) =
       .ok ((range (sorted.length : Int)).map (fun i => (i, (sorted[i.toNat]?).getD Dict.empty))) := by
   rw [listComp_ok _ _ (fun i => some (i, (sorted[i.toNat]?).getD Dict.empty))]
   · simp [List.filterMap_eq_map']
   · intro i hi
-    simp only [pyIter_list, pyLen_list, mem_range] at hi
+    simp only [pyLen_list, mem_range] at hi
     have : i.toNat < sorted.length := by omega
     rw [listGet_ok sorted i sorted[i.toNat] hi.1 (by simp [this])]
     simp [this]
+
+
+/-- attributes of atom `i` from the formula alone -/
+def baseOf (syms : List Str) (i : Int) : Attrs := (((syms.mergeSort byZ).map baseAttrs)[i.toNat]?).getD Dict.empty
+/-- ... joined with the listed attributes -/
+def joined (syms : List Str) (D : Dict Int Attrs) (i : Int) : Attrs :=
+  (baseOf syms i).update ((D.get? i).getD Dict.empty)
+
+theorem to_graph_eq (env : DepEnv) (syms : List Str) (bonds : List (Int × Int)) (D : Dict Int Attrs)
+    (hD : D.WF) (hD0 : ∀ i ∈ D.keys, 0 ≤ i) :
+    TucanListenerImpl.to_graph env { _atoms := syms.map baseAttrs, _bonds := bonds, _node_attributes := D } =
+      if (∀ b ∈ bonds, b.1 < syms.length ∧ b.2 < syms.length) ∧ (∀ p ∈ D.items, p.1 < (syms.length : Int)) then
+        (Tucan.graph_utils.graph_from_molecule env (tab syms.length (joined syms D))
+          (Dict.ofPairs (bonds.map (fun b => (b, (Dict.empty : Attrs))))) >>= fun r => .ok r.1)
+      else .error TPE := by
+  unfold TucanListenerImpl.to_graph
+  simp only [pyIter_list]
+  rw [forIn_check bonds _ (fun b => b.1 < (syms.length : Int) ∧ b.2 < (syms.length : Int)) TPE]
+  swap
+  · rintro ⟨i1, i2⟩ _
+    simp only [_validate_atom_index_ok, List.length_map]
+    by_cases h1 : i1 < (syms.length : Int) <;> by_cases h2 : i2 < (syms.length : Int) <;> simp [h1, h2]
+  by_cases hb : ∀ b ∈ bonds, b.1 < (syms.length : Int) ∧ b.2 < (syms.length : Int)
+  swap
+  · rw [if_neg hb, if_neg (fun h => hb h.1)]; rfl
+  rw [if_pos hb]
+  have hT : Dict.ofPairs ((range (((syms.mergeSort byZ).map baseAttrs).length : Int)).map
+      (fun i => (i, ((((syms.mergeSort byZ).map baseAttrs))[i.toNat]?).getD Dict.empty))) =
+      tab syms.length (baseOf syms) := by
+    rw [Dict.ofPairs_of_nodup _ (by simp only [List.map_map, Function.comp_def, List.map_id']; exact Graph.nodup_range _)]
+    simp [tab, baseOf]
+  have hB : listComp bonds (fun bond => (pure (some (bond, (Dict.empty : Attrs))) : M (Option ((Int × Int) × Attrs)))) =
+      .ok (bonds.map (fun b => (b, (Dict.empty : Attrs)))) := by
+    refine (listComp_ok _ _ (fun b => some (b, (Dict.empty : Attrs))) (fun _ _ => rfl)).trans ?_
+    simp [List.filterMap_eq_map']
+  simp only [ok_bind, sorted_atoms_ok, atoms_dict_ok, hT, hB]
+  rw [forIn_tab syms.length D.items Prod.fst (fun p a => a.update p.2) _ (fun p => p.1 < (syms.length : Int)) TPE]
+  · by_cases hd : ∀ p ∈ D.items, p.1 < (syms.length : Int)
+    · rw [if_pos hd, if_pos ⟨hb, hd⟩]
+      simp only [ok_bind]
+      have hf : (D.items.foldl (fun h (x : Int × Attrs) => Function.update h x.1 ((h x.1).update x.2)) (baseOf syms)) =
+          joined syms D := by
+        funext i
+        rw [foldl_update_nodup D.items Prod.fst (fun p a => a.update p.2) hD]
+        have hl : D.get? i = assoc D.items i := (assoc_eq_lookup D.items i).symm
+        unfold joined
+        rw [hl]; unfold assoc
+        cases D.items.find? (fun p => decide (p.1 = i)) with
+        | none => rfl
+        | some p => rfl
+      rw [hf]; rfl
+    · rw [if_neg hd, if_neg (fun h => hd h.2)]; rfl
+  · rintro ⟨i, a⟩ hp h
+    have h0 : 0 ≤ i := hD0 i (List.mem_map_of_mem (f := Prod.fst) hp)
+    simp only [_validate_atom_index_ok, List.length_map]
+    by_cases hi : i < (syms.length : Int)
+    · have hr : i ∈ range (syms.length : Int) := (mem_range _ _).mpr ⟨h0, hi⟩
+      have hg : (getItem (tab syms.length h) i : M Attrs) = .ok (h i) :=
+        getItem_dict_ok _ _ _ (by show (tab syms.length h).get? i = _; rw [tab_get?, if_pos hr])
+      simp [hi, hg]
+    · simp [hi]
+  · rintro ⟨i, a⟩ hp hi
+    exact (mem_range _ _).mpr ⟨hD0 i (List.mem_map_of_mem (f := Prod.fst) hp), hi⟩
 
 end Contracts.Parser
